@@ -196,8 +196,15 @@ theorem errorResponse_P (err : Exc) (t : Trace) : P (errorResponse app p err t).
   · exact fallback500_P C hp _ _ _ h
   · simp [R.err] at h
 
+def PostOK (ValOK : Val → Prop) (ExcOK : Exc → Prop) (post : AfterProg) : Prop :=
+  ∀ j, match post j with
+    | .ret v => ValOK v
+    | .raise e => ExcOK e
+    | .same => True
+
 include C hp in
-theorem runAfter_P (j k : Nat) (t : Trace) (r : Resp) (hr : P r) : P (runAfter app p j k t r).2 := by
+theorem runAfter_P (post : AfterProg) (hpost : PostOK ValOK ExcOK post) (j k : Nat) (t : Trace) (r : Resp)
+    (hr : P r) : P (runAfter app p post j k t r).2 := by
   induction k generalizing j t r with
   | zero => exact hr
   | succ k ih =>
@@ -206,9 +213,16 @@ theorem runAfter_P (j k : Nat) (t : Trace) (r : Resp) (hr : P r) : P (runAfter a
     · exact ih _ _ _ hr
     · split
       · rename_i t1 v hc
+        have hv : ValOK v := by
+          unfold callA at hc
+          have := hpost j
+          split at hc
+          · rename_i v' hv'; rw [hv'] at this; simp at hc; obtain ⟨_, rfl⟩ := hc; exact this
+          · simp at hc
+          · simp at hc; rw [← hc.2]; exact C.noneOK
         split
         · rename_i t2 r' hco
-          exact ih _ _ _ (coerce_P C _ _ (Or.inl (callT_ok C hp _ _ _ _ _ hc)) _ _ hco)
+          exact ih _ _ _ (coerce_P C _ _ (Or.inl hv) _ _ hco)
         · exact errorResponse_P C hp _ _
       · exact errorResponse_P C hp _ _
 
@@ -328,22 +342,29 @@ theorem phase1_err (ctor : Option Exc) (hc : ∀ e, ctor = some e → ExcOK e) (
       exact dispatch_err C hp _ _ _ _ hd
 
 include C hp in
-/-- **the generic ladder invariant**: the response that reaches emission satisfies `P` -/
-theorem respond_P (ctor : Option Exc) (hc : ∀ e, ctor = some e → ExcOK e) (route : Route)
-    (t : Trace) (r : Resp) (h : respond app p ctor route = (t, some r)) : P r := by
-  unfold respond at h
+theorem preAfter_P (ctor : Option Exc) (hc : ∀ e, ctor = some e → ExcOK e) (route : Route)
+    (t : Trace) (r : Resp) (h : preAfter app p ctor route = (t, some r)) : P r := by
+  unfold preAfter at h
   split at h
   · rename_i t0 r0 hph
+    simp only [Prod.mk.injEq, Option.some.injEq] at h
+    obtain ⟨_, rfl⟩ := h
+    exact phase1_ok C hp _ _ _ _ hph
+  · rename_i t0 e hph
+    exact ladder_P C hp t0 e (phase1_err C hp _ hc _ _ _ hph) _ _ h
+
+include C hp in
+/-- **the generic ladder invariant**: the response that reaches emission satisfies `P` -/
+theorem respond_P (post : AfterProg) (hpost : PostOK ValOK ExcOK post) (ctor : Option Exc)
+    (hc : ∀ e, ctor = some e → ExcOK e) (route : Route)
+    (t : Trace) (r : Resp) (h : respond app p post ctor route = (t, some r)) : P r := by
+  unfold respond at h
+  split at h
+  · simp at h
+  · rename_i t0 r0 hpre
     simp only [afterAll, Prod.mk.injEq, Option.some.injEq] at h
     obtain ⟨_, rfl⟩ := h
-    exact runAfter_P C hp _ _ _ _ (phase1_ok C hp _ _ _ _ hph)
-  · rename_i t0 e hph
-    split at h
-    · simp at h
-    · rename_i t1 r1 hl
-      simp only [afterAll, Prod.mk.injEq, Option.some.injEq] at h
-      obtain ⟨_, rfl⟩ := h
-      exact runAfter_P C hp _ _ _ _ (ladder_P C hp t0 e (phase1_err C hp _ hc _ _ _ hph) _ _ hl)
+    exact runAfter_P C hp post hpost _ _ _ _ (preAfter_P C hp ctor hc route _ _ hpre)
 
 end
 
